@@ -6,16 +6,19 @@
 // on hand-built optical::MaterialParams / CerenkovParams / ScintillationParams (no Geant4).
 //
 // Enumerated (every element of the product is executed; nothing is sampled):
-//   dndx:   material x charge{-1,+1} x beta lattice derived from the material's table
+//   dndx:   material x charge{-1,+1,-2,+2} x beta lattice derived from the material's table
 //           (every knot's 1/n at -1e-3,-1e-9,-2ulp..+2ulp,+1e-9,+1e-3 relative, mid-knots,
 //           far below, close to 1, exactly 1)
 //   offc:   CerenkovOffload: material x beta_pre x beta_post(e-/e+ energy) x step length x
 //           charge x direction x position x A_u^3 (Poisson draws)
-//   offs:   ScintillationOffload: scint material x energy deposition x charge{-,+} x A_u^3
+//   offs:   ScintillationOffload: scint material x energy deposition x charge{-,+} x A_u^3;
+//           pre-step speed {0.9, 0.3} (by variant) != post-step speed 0.99862874 (9.25 MeV)
 //   cer:    CerenkovGenerator: material x (beta_pre, beta_post) ordered pairs x parent
 //           direction (axes, oblique, all rotate() branches near +-z) x variant(position,
 //           step length, charge, pre-step time) x A_u^6 first canonicals; 2 photons / script
-//   sci:    ScintillationGenerator: scint material x speed pair x variant(position, direction,
+//           variant 3 carries charge +2
+//   sci:    ScintillationGenerator: scint material x speed pair (6, incl. post/pre = 18 and
+//           post-step speed 0) x variant(position, direction,
 //           step, time) x charge{-1,+1,0} x A_u^6; 3 photons / script (first photon, photon
 //           that re-uses the spare normal deviate, photon from the declared tail)
 // A_u = vf::alphabet_u5 (quick) / alphabet_u7 (thorough; the 6th position of the generator
@@ -27,7 +30,11 @@
 //   dir.parent = 1/(n(E) * (beta_pre+beta_post)/2) with n(E) my own linear interpolation;
 //   dN/dx finite, >= 0, == 0 below threshold, <= alpha z^2/(hbar c) (Emax-Emin) (documented
 //   integrand sin^2 theta <= 1); offload returns an empty distribution below threshold
-//   (mean beta * n_max < 1) and otherwise copies the step data verbatim; bounded draws.
+//   (mean beta * n_max < 1) and otherwise copies the step data verbatim; bounded draws;
+//   dN/dx(z) == z^2 dN/dx(+1) bitwise (z^2 in {1,4}).
+// optical::MaterialView is built through BOTH constructors: the volume -> material map is
+// v -> (v+2) % n, one non-optical volume (view must be false), one second volume of material 0;
+// dndx z>0 / offc e+ / cer even materials go through VolumeId, the rest through the material id.
 //
 // Tolerances (eps = 2^-52):
 //   TOL = 1e-12: the library's own "soft" precision (SoftEqualTraits<double>::rel_prec) and
@@ -311,7 +318,7 @@ std::vector<Variant> make_variants()
         {{0, 0, 0}, 0.15, -1, 0.0},
         {{12.5, -300.25, 1000.0}, 1e-4, +1, 1e-9},
         {{-0.001, 0.002, 0.003}, 25.0, -1, 2.5e-3},
-        {{12.5, -300.25, 1000.0}, 25.0, +1, 1.0},
+        {{12.5, -300.25, 1000.0}, 25.0, +2, 1.0},
     };
 }
 
@@ -381,7 +388,16 @@ struct World
             p.refractive_index.x = t.e;
             p.refractive_index.y = t.n;
             mi.properties.push_back(p);
-            mi.volume_to_mat.push_back(OpticalMaterialId(mi.volume_to_mat.size()));
+        }
+        // volume -> optical material: NOT the identity. Volume v < n maps to material
+        // (v + 2) % n (no fixed point for n >= 3), volume n is not optical, volume n + 1 is a
+        // second volume of material 0 (two volumes sharing a material).
+        {
+            size_t const n = tabs.size();
+            for (size_t v = 0; v < n; ++v)
+                mi.volume_to_mat.push_back(OpticalMaterialId((v + 2) % n));
+            mi.volume_to_mat.push_back(OpticalMaterialId{});
+            mi.volume_to_mat.push_back(OpticalMaterialId(0));
         }
         mat = std::make_shared<optical::MaterialParams>(std::move(mi));
         cer = std::make_shared<optical::CerenkovParams>(mat);
@@ -406,6 +422,22 @@ struct World
         pstate = CollectionStateStore<ParticleStateData, MemSpace::host>(particles->host_ref(), 1);
         sim = std::make_shared<SimParams>();
         sstate = CollectionStateStore<SimStateData, MemSpace::host>(sim->host_ref(), 1);
+    }
+
+    //! Volume whose optical material is m (alt: the second volume of material 0)
+    VolumeId volume_of(size_t m, bool alt = false) const
+    {
+        size_t const n = tabs.size();
+        if (alt && m == 0)
+            return VolumeId(n + 1);
+        return VolumeId((m + n - 2) % n);
+    }
+    //! MaterialView of optical material m through either constructor
+    optical::MaterialView view(size_t m, bool through_volume, bool alt = false) const
+    {
+        if (through_volume)
+            return optical::MaterialView(mat->host_ref(), volume_of(m, alt));
+        return optical::MaterialView(mat->host_ref(), OpticalMaterialId(m));
     }
 
     ParticleTrackView particle(double energy_mev, bool positron)
@@ -642,7 +674,7 @@ int main(int argc, char** argv)
     {
         Tab const& t = W.tabs[m];
         auto betas = beta_lattice_fine(t);
-        for (int z : {-1, +1})
+        for (int z : {-1, +1, -2, +2})
         {
             uint64_t idx = outer++;
             if (!R.mine(idx))
@@ -651,10 +683,21 @@ int main(int argc, char** argv)
             if (!R.want(cid))
                 continue;
             R.begin_case(cid, 60);
-            optical::MaterialView mv(mref, OpticalMaterialId(m));
+            // view through the VolumeId constructor for z > 0 (z = +2: the duplicate volume),
+            // through the OpticalMaterialId constructor for z < 0
+            optical::MaterialView mv = W.view(m, z > 0, z == 2);
+            if (!mv || mv.material_id() != OpticalMaterialId(m))
+                R.violation("material-view:wrong-material-for-volume", cid,
+                            fmt("volume %u -> material %u, expected %zu",
+                                W.volume_of(m, z == 2).unchecked_get(),
+                                mv.material_id().unchecked_get(), m));
+            if (optical::MaterialView(mref, VolumeId(W.tabs.size())))
+                R.violation("material-view:non-optical-volume-is-true", cid, "volume n");
             optical::CerenkovDndxCalculator calc(mv, cref, units::ElementaryCharge(z));
+            // reference for the charge-scaling claim: unit charge, material-id constructor
+            optical::CerenkovDndxCalculator calc1(W.view(m, false), cref, units::ElementaryCharge(1));
             LD nmax = t.n.back(), nmin = t.n.front();
-            LD bound = K * LD(native_value_from(units::MevEnergy(1.0)))
+            LD bound = K * LD(z * z) * LD(native_value_from(units::MevEnergy(1.0)))
                        * (LD(t.e.back()) - LD(t.e.front())) * (1 + 1e-12L);
             for (double b : betas)
             {
@@ -686,6 +729,12 @@ int main(int argc, char** argv)
                     R.violation("dndx:above-documented-bound", cid,
                                 fmt("%s: dN/dx=%s > alpha z^2/(hbar c) (Emax-Emin)=%.17Lg", ctx.c_str(),
                                     dstr(v).c_str(), bound));
+                // dN/dx = z^2 * (...): z^2 in {1, 4} is a power of two, so the scaling is exact
+                double v1 = calc1(units::LightSpeed(b));
+                if (std::isfinite(v) && v != double(z * z) * v1)
+                    R.violation("dndx:not-proportional-to-charge-squared", cid,
+                                fmt("%s: dN/dx(z=%d)=%s, dN/dx(z=+1)=%s", ctx.c_str(), z,
+                                    dstr(v).c_str(), dstr(v1).c_str()));
                 R.outcome(vf::hash_mix(vf::hash_str(cid), vf::hash_pod(v)));
             }
             R.end_case();
@@ -729,7 +778,7 @@ int main(int argc, char** argv)
                                     Real3 pos = pre.pos;
                                     for (int i = 0; i < 3; ++i)
                                         pos[i] += 0.9 * step * dirs[di].d[i];
-                                    optical::MaterialView mv(mref, OpticalMaterialId(m));
+                                    optical::MaterialView mv = W.view(m, positron != 0);
                                     CerenkovOffload off(particle, sim, mv, pos, cref, pre);
                                     double bpost = particle.speed().value();
                                     LD bm = 0.5L * (LD(bpre) + LD(bpost));
@@ -826,7 +875,10 @@ int main(int argc, char** argv)
                     {
                         Variant const& var = variants[vi];
                         OffloadPreStepData pre;
-                        pre.speed = units::LightSpeed(0.99862874144970537);
+                        // pre-step speed differs from the post-step speed of the 9.25 MeV
+                        // particle (0.99862874...) so that the copy oracle below can tell the
+                        // two step points apart; two letters, alternating with the variant
+                        pre.speed = units::LightSpeed((vi % 2) ? 0.3 : 0.9);
                         pre.pos = {var.pre[0], var.pre[1], var.pre[2]};
                         pre.time = var.time;
                         pre.material = OpticalMaterialId(m);
@@ -892,7 +944,7 @@ int main(int argc, char** argv)
         {
             Tab const& t = W.tabs[m];
             auto betas = beta_lattice(t, thorough);
-            optical::MaterialView mv(mref, OpticalMaterialId(m));
+            optical::MaterialView mv = W.view(m, m % 2 == 0, true);
             for (double bpre : betas)
                 for (double bpost : betas)
                     for (size_t di = 0; di < dirs.size(); ++di)
@@ -1093,7 +1145,9 @@ int main(int argc, char** argv)
     {
         Scripts S{alpha, 6, &vf::alphabet_u5()};  // thorough: A_u7^5 x A_u5; quick: A_u5^6
         std::vector<std::array<double, 2>> speeds
-            = {{0.99862874144970537, 0.99}, {0.1, 0.05}, {0.5, 0.5}, {0.3, 0.9}};
+            = {{0.99862874144970537, 0.99}, {0.1, 0.05}, {0.5, 0.5}, {0.3, 0.9},
+               {0.05, 0.9},   // post/pre = 18 > 3: a sign flip of delta_speed gives a negative time
+               {0.4, 0.0}};   // particle stopped within the step
         std::vector<size_t> dsel = {4, 7, 0, 12};  // per variant: +z, oblique, +x, near-pole
         for (size_t m = 0; m < W.scint.size(); ++m)
             for (size_t si = 0; si < speeds.size(); ++si)
